@@ -208,6 +208,11 @@ def check(ctx, rep):
             if isinstance(n, ast.Call) and isinstance(n.func, ast.Attribute) and n.func.attr == "append" and norm(n.func.value) == "self.scopeStack" \
                     and n.args and isinstance(n.args[0], ast.Tuple):
                 scope_fields = [norm(e) for e in n.args[0].elts]
+        if not scope_fields:
+            # the state is saved through a NamedTuple / a helper of the class (see C17's saved_names)
+            from .c17 import saved_names
+
+            scope_fields = ["self." + x for x in saved_names(prog, interp, ss)]
     for flag in ("self.localVarsDefined", "self.repeatVariable"):
         rep.add("R18c", f"{flag} is part of the saved scope state", flag in scope_fields, ctx.where(ss) if ss else mod.relpath,
                 "" if flag in scope_fields else f"{flag} is not saved/restored per element: an inner element's locals flag leaks to the outer one", key=f"R18c|saved|{flag}")
@@ -216,7 +221,12 @@ def check(ctx, rep):
 
     pp, qp = interp.methods.get("pushProgram"), interp.methods.get("popProgram")
     if pp is not None and qp is not None:
-        sv, rs = saved_names(prog, interp, pp), saved_names(prog, interp, qp) | {n.attr for n in ast.walk(qp.node) if isinstance(n, ast.Attribute)
+        _reflective = any(isinstance(c_, ast.Call) and isinstance(c_.func, ast.Attribute) and dotted(c_.func.value) == "self"
+                          and (h_ := prog.resolve_method(interp, c_.func.attr)) is not None
+                          and any(isinstance(x, ast.Attribute) and x.attr == "_fields" for x in ast.walk(h_.node))
+                          and any(isinstance(x, ast.Call) and dotted(x.func) == "setattr" for x in ast.walk(h_.node))
+                          for c_ in ast.walk(qp.node))
+        sv, rs = saved_names(prog, interp, pp), (saved_names(prog, interp, pp) if _reflective else set()) | saved_names(prog, interp, qp) | {n.attr for n in ast.walk(qp.node) if isinstance(n, ast.Attribute)
                                                                                    and isinstance(n.ctx, ast.Store) and dotted(n.value) == "self"}
         for flag in ("localVarsDefined", "repeatVariable"):
             ok = flag in sv and flag in rs
